@@ -300,11 +300,13 @@ pub async fn scenario() {
 	}
 	// ---------------- HTTP: one POST per message ----------------
 	let http_results: Arc<Mutex<Vec<(usize, usize, world::HttpReply)>>> = Arc::default();
+	// keep-alive connections that broke before all their messages were answered: (connection, message index, error)
+	let http_broke: Arc<Mutex<Vec<(usize, usize, String)>>> = Arc::default();
 	let mut http_tasks = Vec::new();
 	for (ci, msgs) in all.iter().enumerate() {
 		if http_over_stream {
 			let (end, _ctl) = world.connect(&format!("http{ci}"));
-			let (msgs, out) = (msgs.clone(), http_results.clone());
+			let (msgs, out, broke) = (msgs.clone(), http_results.clone(), http_broke.clone());
 			http_tasks.push(rt::spawn("http-peer", async move {
 				let Ok(mut peer) = world::http_handshake(end).await else { return };
 				for (mi, m) in msgs.iter().enumerate() {
@@ -314,7 +316,8 @@ pub async fn scenario() {
 							out.lock().unwrap().push((ci, mi, r));
 						}
 						Err(e) => {
-							rt::event("http-error", e);
+							rt::event("http-error", &e);
+							broke.lock().unwrap().push((ci, mi, e));
 							break;
 						}
 					}
@@ -322,7 +325,16 @@ pub async fn scenario() {
 			}));
 		} else {
 			for (mi, m) in msgs.iter().enumerate() {
-				let fut = world.tower_call(world::post_request(m.bytes.clone()));
+				// the body arrives in one frame with Content-Length, or streamed in two frames without
+				let fut: std::pin::Pin<Box<dyn std::future::Future<Output = _> + Send>> = if rt::chance("http_streamed_body", 1, 3) {
+					rt::probe("http_streamed_body");
+					let cut = rt::draw("body_cut", m.bytes.len() as u32 + 1) as usize;
+					let body = super::httpframing::ScriptBody::new(vec![(m.bytes[..cut].to_vec(), 1), (m.bytes[cut..].to_vec(), rt::draw("second_frame_delay", 3))], None);
+					let req = http::Request::builder().method("POST").uri("/").header("host", "sim.invalid").header("content-type", "application/json").body(body).unwrap();
+					Box::pin(world.tower_call(req))
+				} else {
+					Box::pin(world.tower_call(world::post_request(m.bytes.clone())))
+				};
 				let out = http_results.clone();
 				http_tasks.push(rt::spawn("http-call", async move {
 					rt::yield_n(rt::draw("http_think", 3)).await;
@@ -422,6 +434,14 @@ pub async fn scenario() {
 			nontrivial = true;
 		}
 		// HTTP side
+		// a keep-alive connection keeps serving: when every request reaches the server in one piece (no fragmenting
+		// stream), nothing entitles the server to close the connection after any reply
+		if http_over_stream && !frag.short && frag.latency_ms == 0 {
+			if let Some((_, mi, e)) = http_broke.lock().unwrap().iter().find(|b| b.0 == ci) {
+				let prev = if *mi > 0 { String::from_utf8_lossy(&msgs[*mi - 1].bytes).chars().take(120).collect::<String>() } else { String::new() };
+				rt::violate(P, "connection-closed", "http:keep-alive", format!("the HTTP keep-alive connection broke ({e}) at message {mi} of {}; the message before was {prev:?}", msgs.len()));
+			}
+		}
 		let hr = http_results.lock().unwrap();
 		for (mi, m) in msgs.iter().enumerate() {
 			let Some((_, _, rep)) = hr.iter().find(|(c, i, _)| *c == ci && *i == mi) else {
